@@ -268,9 +268,13 @@ class StoreRun:
             t.t_grant = self.env.now
             t.obs_grant = self.obs
             t.granted_in_call = in_call
-        for t in new:
-            for o in self.oracles:
-                if hasattr(o, "on_grant"):
+        if not new:
+            return
+        for o in self.oracles:
+            if hasattr(o, "on_grants"):
+                o.on_grants(self, new)
+            elif hasattr(o, "on_grant"):
+                for t in new:
                     o.on_grant(self, t)
 
     def step(self):
